@@ -259,10 +259,40 @@ def norm_log(log, block):
     return out
 
 
+class _CallableObject:
+    """a generator function given as an object with __call__: no __name__, __qualname__, __doc__ of a function"""
+
+    __slots__ = ("fn",)
+
+    def __init__(self, fn):
+        self.fn = fn
+
+    def __call__(self, /, *args, **kwargs):
+        return self.fn(*args, **kwargs)
+
+
+class _Holder:
+    def __init__(self, fn):
+        self.fn = fn
+
+    def method(self, /, *args, **kwargs):
+        return self.fn(*args, **kwargs)
+
+
+#: the forms in which a caller may hand over "a function that returns an async generator"
+PROGRAM_FLAVOURS = {
+    "def": lambda fn: fn,
+    "partial": lambda fn: functools.partial(fn),
+    "object": _CallableObject,
+    "method": lambda fn: _Holder(fn).method,
+    "lambda": lambda fn: (lambda *args, **kwargs: fn(*args, **kwargs)),
+}
+
+
 def run_side(case, which):
     ctx = Ctx(which)
     log = []
-    program = make_program(case, ctx, log)
+    program = PROGRAM_FLAVOURS[case.get("given_as", "def")](make_program(case, ctx, log))
     with loop_mode(ctx, "hooks"):
         if which == "a":
             coro = use(a.contextmanager(program), case, log)
@@ -334,7 +364,8 @@ def variations(draw):
             "susp": draw(st.integers(0, 2)), "value": draw(st.sampled_from(["VALUE", None, 0, ""])),
             "use": draw(st.sampled_from(["with", "with", "decorator"])),
             "call": draw(st.sampled_from(sorted(CALLS))), "body_call": draw(st.sampled_from(sorted(CALLS))),
-            "in_handler": draw(st.booleans())}
+            "in_handler": draw(st.booleans()),
+            "given_as": draw(st.sampled_from(sorted(PROGRAM_FLAVOURS) + ["def", "def"]))}
 
 
 def check_variation(case):
